@@ -5961,6 +5961,18 @@ class PyCdlib:
             if mac:
                 efi = True
 
+        if efi:
+            # The GPT (and APM) describe the El Torito boot images for the
+            # EFI platform; without any there is nothing to describe.
+            num_efi = 0
+            if self.eltorito_boot_catalog.validation_entry.platform_id == 0xef:
+                num_efi += 1 + len(self.eltorito_boot_catalog.standalone_entries)
+            for sec in self.eltorito_boot_catalog.sections:
+                if sec.platform_id == 0xef:
+                    num_efi += len(sec.section_entries)
+            if num_efi == 0:
+                raise pycdlibexception.PyCdlibInvalidInput('EFI support needs an El Torito boot entry for the EFI platform')
+
         if part_type is None:
             part_type = 0x17
             if mac or efi:
